@@ -94,6 +94,16 @@ class Defs:
         return bool(bs) and all(b.kind == "param" for b in bs)
 
     # -- copy propagation ---------------------------------------------------
+    @staticmethod
+    def _substitutable(b: "Binding") -> bool:
+        """A single plain assignment of a computed value; never a literal
+        container / constant (those are initial states of objects that are
+        mutated later, not definitions)."""
+        return b.kind == "assign" and isinstance(b.target, ast.Name) \
+            and b.value is not None and not isinstance(
+                b.value, (ast.Dict, ast.List, ast.Set, ast.Constant,
+                          ast.Tuple))
+
     def resolve(self, expr: ast.AST, depth: int = 6) -> ast.AST:
         """Replace a Name that has exactly one plain-assignment binding by the
         bound expression (outermost only; repeated up to ``depth``)."""
@@ -101,9 +111,7 @@ class Defs:
         for _ in range(depth):
             if isinstance(cur, ast.Name):
                 bs = self.of(cur.id)
-                if len(bs) == 1 and bs[0].kind == "assign" \
-                        and isinstance(bs[0].target, ast.Name) \
-                        and bs[0].value is not None:
+                if len(bs) == 1 and self._substitutable(bs[0]):
                     cur = bs[0].value
                     continue
             break
@@ -121,9 +129,7 @@ class Defs:
                 if not isinstance(node.ctx, ast.Load) or self.d <= 0:
                     return node
                 bs = defs.of(node.id)
-                if len(bs) == 1 and bs[0].kind == "assign" \
-                        and isinstance(bs[0].target, ast.Name) \
-                        and bs[0].value is not None:
+                if len(bs) == 1 and defs._substitutable(bs[0]):
                     import copy
                     return Sub(self.d - 1).visit(copy.deepcopy(bs[0].value))
                 return node
